@@ -300,3 +300,266 @@ Definition clock_table : list (string * string) := [
    "telemetry.ModuleMeasureSince: metrics only, nothing is written to state");
   ("x/settlement/abci.go|EndBlock|clock|time.Now()",
    "telemetry.ModuleMeasureSince: metrics only, nothing is written to state")].
+
+(* Process-local state: every struct field and every package-level variable of the consensus packages.
+   State that matters to consensus has to live in the multistore: that is what baseapp rolls back when a transaction
+   is rejected or only simulated (C09 "a rejected message changes nothing", C02 / C03 / C13 rely on it) and what every
+   node shares (C07).  A new field or variable - a cache, a memo, a counter - is not in this table and breaks the
+   obligation until it is shown to be harmless. *)
+Definition state_table : list (string * string) := [
+  ("app/ante/fee.go|DeductFeeDecorator|field|accountKeeper authante.AccountKeeper",
+   "decorator wiring set by its constructor: keeper interfaces and the fee checker closure, no mutable value");
+  ("app/ante/fee.go|DeductFeeDecorator|field|bankKeeper authtypes.BankKeeper",
+   "decorator wiring set by its constructor: keeper interfaces and the fee checker closure, no mutable value");
+  ("app/ante/fee.go|DeductFeeDecorator|field|feegrantKeeper authante.FeegrantKeeper",
+   "decorator wiring set by its constructor: keeper interfaces and the fee checker closure, no mutable value");
+  ("app/ante/fee.go|DeductFeeDecorator|field|settlementKeeper SettlementKeeper",
+   "decorator wiring set by its constructor: keeper interfaces and the fee checker closure, no mutable value");
+  ("app/ante/fee.go|DeductFeeDecorator|field|txFeeChecker authante.TxFeeChecker",
+   "decorator wiring set by its constructor: keeper interfaces and the fee checker closure, no mutable value");
+  ("app/ante/fee.go|SettlusValidatorCheckDecorator|field|ork OracleKeeper",
+   "decorator wiring set by its constructor: keeper interfaces and the fee checker closure, no mutable value");
+  ("app/ante/handler_options.go|HandlerOptions|field|AccountKeeper evmtypes.AccountKeeper",
+   "wiring handed to NewAnteHandler once at application start: keepers, codec and constants, never written afterwards");
+  ("app/ante/handler_options.go|HandlerOptions|field|BankKeeper evmtypes.BankKeeper",
+   "wiring handed to NewAnteHandler once at application start: keepers, codec and constants, never written afterwards");
+  ("app/ante/handler_options.go|HandlerOptions|field|Cdc codec.BinaryCodec",
+   "wiring handed to NewAnteHandler once at application start: keepers, codec and constants, never written afterwards");
+  ("app/ante/handler_options.go|HandlerOptions|field|DistributionKeeper anteutils.DistributionKeeper",
+   "wiring handed to NewAnteHandler once at application start: keepers, codec and constants, never written afterwards");
+  ("app/ante/handler_options.go|HandlerOptions|field|EvmKeeper evmante.EVMKeeper",
+   "wiring handed to NewAnteHandler once at application start: keepers, codec and constants, never written afterwards");
+  ("app/ante/handler_options.go|HandlerOptions|field|ExtensionOptionChecker ante.ExtensionOptionChecker",
+   "wiring handed to NewAnteHandler once at application start: keepers, codec and constants, never written afterwards");
+  ("app/ante/handler_options.go|HandlerOptions|field|FeeMarketKeeper evmante.FeeMarketKeeper",
+   "wiring handed to NewAnteHandler once at application start: keepers, codec and constants, never written afterwards");
+  ("app/ante/handler_options.go|HandlerOptions|field|FeegrantKeeper ante.FeegrantKeeper",
+   "wiring handed to NewAnteHandler once at application start: keepers, codec and constants, never written afterwards");
+  ("app/ante/handler_options.go|HandlerOptions|field|IBCKeeper *ibckeeper.Keeper",
+   "wiring handed to NewAnteHandler once at application start: keepers, codec and constants, never written afterwards");
+  ("app/ante/handler_options.go|HandlerOptions|field|MaxTxGasWanted uint64",
+   "wiring handed to NewAnteHandler once at application start: keepers, codec and constants, never written afterwards");
+  ("app/ante/handler_options.go|HandlerOptions|field|OracleKeeper OracleKeeper",
+   "wiring handed to NewAnteHandler once at application start: keepers, codec and constants, never written afterwards");
+  ("app/ante/handler_options.go|HandlerOptions|field|SettlementKeeper SettlementKeeper",
+   "wiring handed to NewAnteHandler once at application start: keepers, codec and constants, never written afterwards");
+  ("app/ante/handler_options.go|HandlerOptions|field|SigGasConsumer func(meter sdk.GasMeter, sig signing.SignatureV2, params authtypes.Params) error",
+   "wiring handed to NewAnteHandler once at application start: keepers, codec and constants, never written afterwards");
+  ("app/ante/handler_options.go|HandlerOptions|field|SignModeHandler authsigning.SignModeHandler",
+   "wiring handed to NewAnteHandler once at application start: keepers, codec and constants, never written afterwards");
+  ("app/ante/handler_options.go|HandlerOptions|field|StakingKeeper anteutils.StakingKeeper",
+   "wiring handed to NewAnteHandler once at application start: keepers, codec and constants, never written afterwards");
+  ("app/ante/handler_options.go|HandlerOptions|field|TxFeeChecker ante.TxFeeChecker",
+   "wiring handed to NewAnteHandler once at application start: keepers, codec and constants, never written afterwards");
+  ("app/post/settlement.go|-|var|_ sdk.PostDecorator",
+   "compile-time interface assertion: holds no value");
+  ("x/oracle/keeper/keeper.go|Keeper|field|AccountKeeper types.AccountKeeper",
+   "interface to another module keeper, set by NewKeeper: that module keeps its state in the multistore");
+  ("x/oracle/keeper/keeper.go|Keeper|field|BankKeeper types.BankKeeper",
+   "interface to another module keeper, set by NewKeeper: that module keeps its state in the multistore");
+  ("x/oracle/keeper/keeper.go|Keeper|field|DistributionKeeper types.DistributionKeeper",
+   "interface to another module keeper, set by NewKeeper: that module keeps its state in the multistore");
+  ("x/oracle/keeper/keeper.go|Keeper|field|SettlementKeeper types.SettlementKeeper",
+   "interface to another module keeper, set by NewKeeper: that module keeps its state in the multistore");
+  ("x/oracle/keeper/keeper.go|Keeper|field|StakingKeeper types.StakingKeeper",
+   "interface to another module keeper, set by NewKeeper: that module keeps its state in the multistore");
+  ("x/oracle/keeper/keeper.go|Keeper|field|cdc codec.BinaryCodec",
+   "immutable handle set by NewKeeper: codec / store key / parameter subspace / module name; all state behind it lives in the multistore");
+  ("x/oracle/keeper/keeper.go|Keeper|field|distributionName string",
+   "immutable handle set by NewKeeper: codec / store key / parameter subspace / module name; all state behind it lives in the multistore");
+  ("x/oracle/keeper/keeper.go|Keeper|field|paramstore paramtypes.Subspace",
+   "immutable handle set by NewKeeper: codec / store key / parameter subspace / module name; all state behind it lives in the multistore");
+  ("x/oracle/keeper/keeper.go|Keeper|field|storeKey storetypes.StoreKey",
+   "immutable handle set by NewKeeper: codec / store key / parameter subspace / module name; all state behind it lives in the multistore");
+  ("x/oracle/keeper/msg_server.go|-|var|_ types.MsgServer",
+   "compile-time interface assertion: holds no value");
+  ("x/oracle/keeper/msg_server.go|msgServer|field|(embedded) Keeper",
+   "embeds the keeper: no state of its own");
+  ("x/oracle/keeper/query.go|-|var|_ types.QueryServer",
+   "compile-time interface assertion: holds no value");
+  ("x/oracle/module.go|-|var|_ module.AppModule",
+   "compile-time interface assertion: holds no value");
+  ("x/oracle/module.go|-|var|_ module.AppModuleBasic",
+   "compile-time interface assertion: holds no value");
+  ("x/oracle/module.go|-|var|_ module.AppModuleGenesis",
+   "compile-time interface assertion: holds no value");
+  ("x/oracle/module.go|-|var|_ module.BeginBlockAppModule",
+   "compile-time interface assertion: holds no value");
+  ("x/oracle/module.go|-|var|_ module.EndBlockAppModule",
+   "compile-time interface assertion: holds no value");
+  ("x/oracle/module.go|AppModule|field|(embedded) AppModuleBasic",
+   "module wiring set by NewAppModule: keepers only");
+  ("x/oracle/module.go|AppModule|field|accountKeeper types.AccountKeeper",
+   "module wiring set by NewAppModule: keepers only");
+  ("x/oracle/module.go|AppModule|field|bankKeeper types.BankKeeper",
+   "module wiring set by NewAppModule: keepers only");
+  ("x/oracle/module.go|AppModule|field|keeper keeper.Keeper",
+   "module wiring set by NewAppModule: keepers only");
+  ("x/oracle/types/errors.go|-|var|ErrChainNotFound = errorsmod.Register(ModuleName, 1000, 'chain not found')",
+   "registered error value: assigned once at package initialisation, never written afterwards");
+  ("x/oracle/types/errors.go|-|var|ErrInvalidFeeder = errorsmod.Register(ModuleName, 1010, 'invalid feeder')",
+   "registered error value: assigned once at package initialisation, never written afterwards");
+  ("x/oracle/types/errors.go|-|var|ErrInvalidParams = errorsmod.Register(ModuleName, 1008, 'invalid params')",
+   "registered error value: assigned once at package initialisation, never written afterwards");
+  ("x/oracle/types/errors.go|-|var|ErrInvalidValidator = errorsmod.Register(ModuleName, 1009, 'invalid validator')",
+   "registered error value: assigned once at package initialisation, never written afterwards");
+  ("x/oracle/types/errors.go|-|var|ErrInvalidVote = errorsmod.Register(ModuleName, 1005, 'invalid vote')",
+   "registered error value: assigned once at package initialisation, never written afterwards");
+  ("x/oracle/types/errors.go|-|var|ErrNoVotingPermission = errorsmod.Register(ModuleName, 1002, 'no voting permission')",
+   "registered error value: assigned once at package initialisation, never written afterwards");
+  ("x/oracle/types/errors.go|-|var|ErrPrevotesNotAccepted = errorsmod.Register(ModuleName, 1007, 'prevotes are not accepted in this period')",
+   "registered error value: assigned once at package initialisation, never written afterwards");
+  ("x/oracle/types/errors.go|-|var|ErrRevealPeriodMissMatch = errorsmod.Register(ModuleName, 1004, 'reveal period of submitted vote do not match with re",
+   "registered error value: assigned once at package initialisation, never written afterwards");
+  ("x/oracle/types/errors.go|-|var|ErrValidatorNotFound = errorsmod.Register(ModuleName, 1003, 'invalid validator')",
+   "registered error value: assigned once at package initialisation, never written afterwards");
+  ("x/oracle/types/errors.go|-|var|ErrVotePeriodIsZero = errorsmod.Register(ModuleName, 1006, 'vote period is zero')",
+   "registered error value: assigned once at package initialisation, never written afterwards");
+  ("x/oracle/types/keys.go|-|var|AggregatePrevoteKeyPrefix = []byte{0x03}",
+   "store key prefix / parameter key: assigned once at package initialisation, only read (append copies: len = cap)");
+  ("x/oracle/types/keys.go|-|var|AggregateVoteKeyPrefix = []byte{0x04}",
+   "store key prefix / parameter key: assigned once at package initialisation, only read (append copies: len = cap)");
+  ("x/oracle/types/keys.go|-|var|FeederDelegationKeyPrefix = []byte{0x01}",
+   "store key prefix / parameter key: assigned once at package initialisation, only read (append copies: len = cap)");
+  ("x/oracle/types/keys.go|-|var|MissCountKeyPrefix = []byte{0x02}",
+   "store key prefix / parameter key: assigned once at package initialisation, only read (append copies: len = cap)");
+  ("x/oracle/types/keys.go|-|var|RoundKeyPrefix = []byte{0x05}",
+   "store key prefix / parameter key: assigned once at package initialisation, only read (append copies: len = cap)");
+  ("x/oracle/types/messages.go|-|var|_ sdk.Msg",
+   "compile-time interface assertion: holds no value");
+  ("x/oracle/types/params.go|-|var|DefaultMaxMissCountPerSlashWindow = uint64(60)",
+   "default parameter value: assigned once at package initialisation, only read");
+  ("x/oracle/types/params.go|-|var|DefaultSlashFraction = sdk.NewDecWithPrec(1, 2)",
+   "default parameter value: assigned once at package initialisation, only read");
+  ("x/oracle/types/params.go|-|var|DefaultSlashWindow = uint64(100000)",
+   "default parameter value: assigned once at package initialisation, only read");
+  ("x/oracle/types/params.go|-|var|DefaultVotePeriod = uint64(10)",
+   "default parameter value: assigned once at package initialisation, only read");
+  ("x/oracle/types/params.go|-|var|DefaultVoteThreshold = sdk.NewDecWithPrec(50, 2)",
+   "default parameter value: assigned once at package initialisation, only read");
+  ("x/oracle/types/params.go|-|var|KeyMaxMissCountPerSlashWindow = []byte('MaxMissCountPerSlashWindow')",
+   "store key prefix / parameter key: assigned once at package initialisation, only read (append copies: len = cap)");
+  ("x/oracle/types/params.go|-|var|KeySlashFraction = []byte('SlashFraction')",
+   "store key prefix / parameter key: assigned once at package initialisation, only read (append copies: len = cap)");
+  ("x/oracle/types/params.go|-|var|KeySlashWindow = []byte('SlashWindow')",
+   "store key prefix / parameter key: assigned once at package initialisation, only read (append copies: len = cap)");
+  ("x/oracle/types/params.go|-|var|KeyToleratedErrorBand = []byte('ToleratedErrorBand')",
+   "store key prefix / parameter key: assigned once at package initialisation, only read (append copies: len = cap)");
+  ("x/oracle/types/params.go|-|var|KeyVotePeriod = []byte('VotePeriod')",
+   "store key prefix / parameter key: assigned once at package initialisation, only read (append copies: len = cap)");
+  ("x/oracle/types/params.go|-|var|KeyVoteThreshold = []byte('VoteThreshold')",
+   "store key prefix / parameter key: assigned once at package initialisation, only read (append copies: len = cap)");
+  ("x/oracle/types/params.go|-|var|KeyWhitelist = []byte('Whitelist')",
+   "store key prefix / parameter key: assigned once at package initialisation, only read (append copies: len = cap)");
+  ("x/oracle/types/params.go|-|var|_ paramtypes.ParamSet",
+   "compile-time interface assertion: holds no value");
+  ("x/oracle/types/vote.go|Claim|field|Abstain bool",
+   "plain value type built and dropped inside one end-blocker call");
+  ("x/oracle/types/vote.go|Claim|field|Miss bool",
+   "plain value type built and dropped inside one end-blocker call");
+  ("x/oracle/types/vote.go|Claim|field|Weight int64",
+   "plain value type built and dropped inside one end-blocker call");
+  ("x/oracle/voteprocessor/types.go|DataWithVoter|field|Data T",
+   "plain value type built and dropped inside one end-blocker call");
+  ("x/oracle/voteprocessor/types.go|DataWithVoter|field|Voter sdk.ValAddress",
+   "plain value type built and dropped inside one end-blocker call");
+  ("x/oracle/voteprocessor/types.go|DataWithWeight|field|Data T",
+   "plain value type built and dropped inside one end-blocker call");
+  ("x/oracle/voteprocessor/types.go|DataWithWeight|field|Weight int64",
+   "plain value type built and dropped inside one end-blocker call");
+  ("x/oracle/voteprocessor/voteprocessor.go|VoteProcessor|field|aggregateVotes []types.AggregateVote",
+   "built by NewSettlusVoteProcessors inside one end-blocker call and dropped after the tally");
+  ("x/oracle/voteprocessor/voteprocessor.go|VoteProcessor|field|dataConverter DataConverter[Source, Data]",
+   "built by NewSettlusVoteProcessors inside one end-blocker call and dropped after the tally");
+  ("x/oracle/voteprocessor/voteprocessor.go|VoteProcessor|field|onConsensus ConsensusHook[Source, Data]",
+   "built by NewSettlusVoteProcessors inside one end-blocker call and dropped after the tally");
+  ("x/oracle/voteprocessor/voteprocessor.go|VoteProcessor|field|thresholdVotes math.Int",
+   "built by NewSettlusVoteProcessors inside one end-blocker call and dropped after the tally");
+  ("x/oracle/voteprocessor/voteprocessor.go|VoteProcessor|field|topic types.OracleTopic",
+   "built by NewSettlusVoteProcessors inside one end-blocker call and dropped after the tally");
+  ("x/settlement/keeper/grpc_query.go|-|var|_ types.QueryServer",
+   "compile-time interface assertion: holds no value");
+  ("x/settlement/keeper/grpc_query.go|Querier|field|(embedded) *SettlementKeeper",
+   "embeds the keeper: no state of its own");
+  ("x/settlement/keeper/keeper.go|SettlementKeeper|field|ak types.AccountKeeper",
+   "interface to another module keeper, set by NewKeeper: that module keeps its state in the multistore");
+  ("x/settlement/keeper/keeper.go|SettlementKeeper|field|bk types.BankKeeper",
+   "interface to another module keeper, set by NewKeeper: that module keeps its state in the multistore");
+  ("x/settlement/keeper/keeper.go|SettlementKeeper|field|cdc codec.BinaryCodec",
+   "immutable handle set by NewKeeper: codec / store key / parameter subspace / module name; all state behind it lives in the multistore");
+  ("x/settlement/keeper/keeper.go|SettlementKeeper|field|erc20k types.Erc20Keeper",
+   "interface to another module keeper, set by NewKeeper: that module keeps its state in the multistore");
+  ("x/settlement/keeper/keeper.go|SettlementKeeper|field|evmk types.EvmKeeper",
+   "interface to another module keeper, set by NewKeeper: that module keeps its state in the multistore");
+  ("x/settlement/keeper/keeper.go|SettlementKeeper|field|paramstore paramtypes.Subspace",
+   "immutable handle set by NewKeeper: codec / store key / parameter subspace / module name; all state behind it lives in the multistore");
+  ("x/settlement/keeper/keeper.go|SettlementKeeper|field|storeKey storetypes.StoreKey",
+   "immutable handle set by NewKeeper: codec / store key / parameter subspace / module name; all state behind it lives in the multistore");
+  ("x/settlement/keeper/msg_server.go|-|var|_ types.MsgServer",
+   "compile-time interface assertion: holds no value");
+  ("x/settlement/keeper/msg_server.go|msgServer|field|(embedded) *SettlementKeeper",
+   "embeds the keeper: no state of its own");
+  ("x/settlement/module.go|-|var|_ module.AppModule",
+   "compile-time interface assertion: holds no value");
+  ("x/settlement/module.go|-|var|_ module.AppModuleBasic",
+   "compile-time interface assertion: holds no value");
+  ("x/settlement/module.go|AppModule|field|(embedded) AppModuleBasic",
+   "module wiring set by NewAppModule: keepers only");
+  ("x/settlement/module.go|AppModule|field|accountKeeper types.AccountKeeper",
+   "module wiring set by NewAppModule: keepers only");
+  ("x/settlement/module.go|AppModule|field|bankKeeper types.BankKeeper",
+   "module wiring set by NewAppModule: keepers only");
+  ("x/settlement/module.go|AppModule|field|keeper *keeper.SettlementKeeper",
+   "module wiring set by NewAppModule: keepers only");
+  ("x/settlement/types/errors.go|-|var|ErrCannotRemoveAdmin = sdkerrors.Register(ModuleName, 1115, 'cannot remove admin')",
+   "registered error value: assigned once at package initialisation, never written afterwards");
+  ("x/settlement/types/errors.go|-|var|ErrDuplicateRequestId = sdkerrors.Register(ModuleName, 1112, 'duplicate request id')",
+   "registered error value: assigned once at package initialisation, never written afterwards");
+  ("x/settlement/types/errors.go|-|var|ErrEVMCallFailed = sdkerrors.Register(ModuleName, 1110, 'evm call failed')",
+   "registered error value: assigned once at package initialisation, never written afterwards");
+  ("x/settlement/types/errors.go|-|var|ErrEventCreationFailed = sdkerrors.Register(ModuleName, 1111, 'failed to emit event')",
+   "registered error value: assigned once at package initialisation, never written afterwards");
+  ("x/settlement/types/errors.go|-|var|ErrInvalidAccount = sdkerrors.Register(ModuleName, 1104, 'invalid account')",
+   "registered error value: assigned once at package initialisation, never written afterwards");
+  ("x/settlement/types/errors.go|-|var|ErrInvalidAdmin = sdkerrors.Register(ModuleName, 1114, 'invalid admin')",
+   "registered error value: assigned once at package initialisation, never written afterwards");
+  ("x/settlement/types/errors.go|-|var|ErrInvalidChainId = sdkerrors.Register(ModuleName, 1107, 'invalid chain id')",
+   "registered error value: assigned once at package initialisation, never written afterwards");
+  ("x/settlement/types/errors.go|-|var|ErrInvalidContractAddress = sdkerrors.Register(ModuleName, 1108, 'invalid contract address')",
+   "registered error value: assigned once at package initialisation, never written afterwards");
+  ("x/settlement/types/errors.go|-|var|ErrInvalidRequest = sdkerrors.Register(ModuleName, 1106, 'invalid request')",
+   "registered error value: assigned once at package initialisation, never written afterwards");
+  ("x/settlement/types/errors.go|-|var|ErrInvalidTenant = sdkerrors.Register(ModuleName, 1102, 'invalid tenant')",
+   "registered error value: assigned once at package initialisation, never written afterwards");
+  ("x/settlement/types/errors.go|-|var|ErrInvalidTokenId = sdkerrors.Register(ModuleName, 1109, 'invalid token id')",
+   "registered error value: assigned once at package initialisation, never written afterwards");
+  ("x/settlement/types/errors.go|-|var|ErrInvalidTxId = sdkerrors.Register(ModuleName, 1103, 'invalid tx id')",
+   "registered error value: assigned once at package initialisation, never written afterwards");
+  ("x/settlement/types/errors.go|-|var|ErrNotAuthorized = sdkerrors.Register(ModuleName, 1100, 'not authorized')",
+   "registered error value: assigned once at package initialisation, never written afterwards");
+  ("x/settlement/types/errors.go|-|var|ErrNotEnoughBalance = sdkerrors.Register(ModuleName, 1101, 'not enough balance')",
+   "registered error value: assigned once at package initialisation, never written afterwards");
+  ("x/settlement/types/errors.go|-|var|ErrNotFound = sdkerrors.Register(ModuleName, 1105, 'account not found')",
+   "registered error value: assigned once at package initialisation, never written afterwards");
+  ("x/settlement/types/errors.go|-|var|ErrUTXRNotFound = sdkerrors.Register(ModuleName, 1113, 'utxr not found')",
+   "registered error value: assigned once at package initialisation, never written afterwards");
+  ("x/settlement/types/keys.go|-|var|LastUtxrIdPrefix = []byte{0x03}",
+   "store key prefix / parameter key: assigned once at package initialisation, only read (append copies: len = cap)");
+  ("x/settlement/types/keys.go|-|var|ModuleAddress common.Address",
+   "module account address: computed once in init(), only read");
+  ("x/settlement/types/keys.go|-|var|TenantPrefix = []byte{0x02}",
+   "store key prefix / parameter key: assigned once at package initialisation, only read (append copies: len = cap)");
+  ("x/settlement/types/keys.go|-|var|UTXRPrefix = []byte{0x00}",
+   "store key prefix / parameter key: assigned once at package initialisation, only read (append copies: len = cap)");
+  ("x/settlement/types/keys.go|-|var|UTXRRequestIdPrefix = []byte{0x01}",
+   "store key prefix / parameter key: assigned once at package initialisation, only read (append copies: len = cap)");
+  ("x/settlement/types/msg.go|-|var|_ sdk.Msg",
+   "compile-time interface assertion: holds no value");
+  ("x/settlement/types/params.go|-|var|KeyGasPrices = []byte('GasPrices')",
+   "store key prefix / parameter key: assigned once at package initialisation, only read (append copies: len = cap)");
+  ("x/settlement/types/params.go|-|var|KeyOracleFeePercentage = []byte('OracleFeePercentage')",
+   "store key prefix / parameter key: assigned once at package initialisation, only read (append copies: len = cap)");
+  ("x/settlement/types/params.go|-|var|KeySupportedChains = []byte('SupportedChains')",
+   "store key prefix / parameter key: assigned once at package initialisation, only read (append copies: len = cap)");
+  ("x/settlement/types/params.go|-|var|_ paramtypes.ParamSet",
+   "compile-time interface assertion: holds no value")].
